@@ -285,6 +285,23 @@ func c11check(c *c11Case, raw []byte) c11Inst {
 			}
 		}
 	}
+	// the kind-dispatching entry point (GetKind + DecodeAny: what the DAG traverser and the dump tools call) is part of
+	// "the hand-written decoder": it has to accept the node as the same kind with the same content
+	if ferr == nil {
+		var av any
+		var aerr error
+		if p := vt.Guard(func() { av, aerr = DecodeAny(raw) }); p != "" {
+			aerr = fmt.Errorf("%s", p)
+		}
+		switch {
+		case aerr != nil:
+			ferr = fmt.Errorf("DecodeAny: %v", aerr)
+		case reflect.TypeOf(av) != reflect.TypeOf(fast):
+			ferr = fmt.Errorf("DecodeAny returned a %T for a %s node", av, c.Kind)
+		case !reflect.DeepEqual(c11proj(reflect.ValueOf(av)), c11proj(reflect.ValueOf(fast))):
+			ferr = fmt.Errorf("DecodeAny and the %s decoder disagree", c.Kind)
+		}
+	}
 	x.Fastok, x.Classicok = ferr == nil, cerr == nil
 	if ferr != nil {
 		x.Detail += "fast: " + ferr.Error() + "; "
